@@ -29,6 +29,9 @@ def preps(maxn):
                   "SM 0 %s %s %s %s" % (hx("fl"), hx("1"), hx("2"), hx("3")), "SM 0 %s %s" % (hx("bl"), hx("no")), "AT 0 %s %s" % (hx("m"), hx("a")),
                   "AT 0 %s %s" % (hx("m"), hx("b")), "SI 0 %s 0 2" % hx("one|w"),
                   "PB 0 " + hx(b"n { y = 1 } n { y = 2 } n { y = 3 }\n")]
+    # a titled multi section whose FIRST instance has no title (cfg_setopt(cfg, opt, NULL) on the empty option):
+    # lookups by title stop at it, the duplicate check of an add must not
+    out["untitled_first"] = ["SO 0 %s -" % hx("m"), "AT 0 %s %s" % (hx("m"), hx("a")), "SI 0 %s 0 42" % hx("m='a'|x")]
     out["emptied"] = ["SL 0 %s" % hx("l"), "SL 0 %s" % hx("sl"), "SS 0 %s 0 -" % hx("s")]
     out["annotated"] = ["SC 0 %s %s" % (hx(n), hx("note " + n)) for n in ("i", "s", "f", "l", "sl", "e", "fl", "bl")]
     out["annotated_set"] = out["set"] + out["annotated"]
